@@ -578,6 +578,12 @@ def _templates_for(T, N, suffix, quick_default):
     add("multiaxis-staged3", [obj("S", gshape=(None, 2, 1)), obj("B", gshape=(1, 1, 1))],
         [c_pos("B", "S", (0,), (-1.0,), (1.0,), margins=(R("m", -0.5, 0.5),)), c_pos("B", "V", (1, 2), (0.0, 0.0), (0.0, 0.0)),
          c_pos("S", "V", (0, 1, 2), (0.0, 0.0, 0.0), (0.0, 0.0, 0.0), margins=(R("m1", -0.5, 0.5), 0, 0)), c_size("S", "V", (0,), props=(R("pr", 0.25, 0.75),))], shape=(N, 4, 3))
+    # an object with TWO PositionConstraints on different axes whose reference object gets its lateral bounds only from the
+    # extension to infinity (substrate without lateral size): the pending lateral constraint must block B's own extension whatever
+    # the order of B's constraints in the list (seeded change C27b)
+    add("inf-extension-two-pos", [obj("S", gshape=(None, None, 1)), obj("B", gshape=(1, 2, 1))],
+        [c_pos("B", "S", (2,), (-1.0,), (1.0,)), c_pos("B", "S", (0, 1), (0.0, 0.0), (0.0, 0.0), margins=(R("m", -0.5, 0.5), 0)),
+         c_pos("S", "V", (2,), (-1.0,), (-1.0,))], shape=(N, 4, 3))
     # 19 longer chain (thorough)
     add("chain3", [obj("A", gshape=(2, None, None)), obj("B", gshape=(1, None, None)), obj("C", gshape=(2, None, None))],
         [c_pos("A", "V", (0,), (-1.0,), (-1.0,), margins=(R("m1", -0.5, 2.0),)), c_pos("B", "A", (0,), (-1.0,), (1.0,), margins=(R("m2", -1.0, 1.0),)),
